@@ -351,7 +351,12 @@ pub(crate) fn compute_contract_weights(
                     return Err(ContractError::Unauthorized);
                 }
                 Ok((earliest_epoch_id, weight)) => {
-                    // some weight was recorded for the contract in the past, start from there
+                    // some weight was recorded for the contract, start from there. The claim cursor is
+                    // per user, not per LP denom, so the first weight ever recorded for this denom can
+                    // be newer than start_from_epoch: that epoch is relevant and needs its weight too.
+                    if earliest_epoch_id >= *start_from_epoch {
+                        contract_weights.insert(earliest_epoch_id, weight);
+                    }
                     (earliest_epoch_id, weight)
                 }
             }
